@@ -55,10 +55,11 @@ Definition mk_set {V} (when : time) (v : V) : cval V :=
 Definition mk_tomb {V} (when : time) : cval V :=
   {| md := when; tomb := when; prev := 0; payload := None |}.
 
-(* Tree.Get hides entries with tomb > 0 (note: not "<> 0"); IsTombstoned uses "<> 0". *)
+(* Tree.Get hides entries with tomb <> 0, as IsTombstoned and the merge do (fix beefaa0; before
+   it Get tested tomb > 0 and showed a key tombstoned at a time before 1970). *)
 Definition crdt_visible {V} (e : option (cval V)) : option (cval V) :=
   match e with
-  | Some v => if 0 <? tomb v then None else Some v
+  | Some v => if tomb v =? 0 then Some v else None
   | None => None
   end.
 Definition crdt_is_tombstoned {V} (e : option (cval V)) : bool :=
